@@ -381,6 +381,98 @@ def neighbours(chk: Check, rnd: random.Random, logs: dict, n: int) -> None:
                           f"instead of {va.get(k, '<absent>')[:300]} ({len(diff)} views differ)", {"op": "neighbour", "eavesdrop": eav, "schema": schema, "own": tl_own, "foreign": tl_for, "views": diff[:10]})
 
 
+def merge_corr(chk: Check, rnd: random.Random, n: int) -> None:
+    """Correspondence for Model/ArrayMerge.lean (theorem C13Merge.own_independent): streams of controller / UFC arrays in one or
+    two parts, single elements, replies and other devices' packets at gaps around the 3 s window, through a real Gateway; what
+    each message is delivered as (the indexes of its payload after merging) against the model."""
+    from datetime import datetime as real_dt
+
+    from ramses_tx.packet import Packet
+
+    ctls = ["01:145038", "01:078710"]
+    ufcs = ["02:017205", "02:044328"]
+    reqs, impl, meta = [], [], []
+    for _ in range(n):
+        frames = []
+        for _k in range(rnd.randint(3, 12)):
+            r = rnd.random()
+            if r < 0.45:
+                c = rnd.choice(ctls)
+                z0 = rnd.randrange(0, 8)
+                k = rnd.choice((1, 1, 2, 3, 5, 8))
+                frames.append(f" I --- {c} --:------ {c} 000A {6 * k:03d} " + "".join(f"{(z0 + i) % 12:02X}1001F40{rnd.choice('89AB')}98" for i in range(k)))
+            elif r < 0.6:
+                u = rnd.choice(ufcs)
+                k = rnd.choice((1, 2, 4))
+                z0 = rnd.randrange(0, 4)
+                frames.append(f" I --- {u} --:------ {u} 22C9 {6 * k:03d} " + "".join(f"{z0 + i:02X}07D00A2801" for i in range(k)))
+            elif r < 0.7:
+                c = rnd.choice(ctls)
+                k = rnd.choice((1, 3))
+                frames.append(f" I --- {c} --:------ {c} {rnd.choice(('2309', '30C9'))} {3 * k:03d} " + "".join(f"{i:02X}07D0" for i in range(k)))
+            elif r < 0.8:
+                c = rnd.choice(ctls)
+                frames.append(f"RP --- {c} {gwrig.GWY_ID} --:------ 000A 006 {rnd.randrange(8):02X}1001F40898")
+            else:
+                d = rnd.choice(("04:111111", "04:222222"))
+                frames.append(f" I --- {d} --:------ {d} 30C9 003 0007D0")
+        gaps = [rnd.choice((0.01, 0.5, 1.4, 2.9, 2.999, 3.0, 3.001, 10.0)) for _ in frames]
+
+        async def body(loop, frames=frames, gaps=gaps):
+            rig = gwrig.Rig(loop, config={"enable_eavesdrop": False})
+            await rig.start()
+            seen = []
+            rig.gwy.add_msg_handler(seen.append)
+            stamps = []
+            for fr, g in zip(frames, gaps):
+                await asyncio.sleep(g)
+                stamps.append(gwrig.vnow(loop))
+                await rig.feed(fr)
+            await asyncio.sleep(1.0)
+            out = []
+            for m in seen:
+                pl = m.payload
+                els = pl if isinstance(pl, list) else [pl]
+                out.append((str(m._pkt)[:60], [int(e.get("zone_idx") or e.get("ufh_idx") or "0", 16) if isinstance(e, dict) else 0 for e in els]))
+            await rig.stop()
+            return out, stamps
+
+        try:
+            (out, stamps), _ = gwrig.run(body)
+        except Exception as e:  # noqa: BLE001
+            chk.violation(f"c13.merge.gateway_died:{type(e).__name__}", f"the gateway run itself raised {e!r}", {"op": "amerge", "frames": frames, "gaps": gaps})
+            continue
+        if len(out) != len(frames):
+            chk.count("amerge.skipped_not_all_delivered")
+            continue
+        evs = []
+        ids: dict = {}
+        for fr, st in zip(frames, stamps):
+            p = Packet(real_dt(2024, 1, 1), "... " + fr)
+            pl_idx = [int(fr[46:][i:i + 2], 16) for i in range(0, len(fr[46:]), {"000A": 12, "22C9": 12, "2309": 6, "30C9": 6}[fr[37:41]])]
+            src = ids.setdefault(fr[7:16], len(ids) + 1)
+            t = round((st - gwrig.BASE).total_seconds() * 1_000_000)
+            try:
+                ha = bool(p._has_array)
+            except Exception:  # noqa: BLE001
+                ha = False
+            if not ha:
+                pl_idx = pl_idx[:1]
+            evs.append(f"{src}:{int(fr[37:41], 16)}:{fr[:2] == ' I'}:{ha}:{t}:{fr[37:41] in ('000A', '22C9')}:{','.join(map(str, pl_idx))}")
+        reqs.append("amerge.run\t" + ";".join(evs))
+        impl.append("ok\t" + ";".join(",".join(map(str, e)) for _, e in out))
+        meta.append({"frames": frames, "gaps": gaps})
+        chk.evaluations += 1
+        chk.nontrivial.add(("am", tuple(frames), tuple(gaps)))
+        chk.count("amerge.streams")
+        chk.count("amerge.merged", sum(1 for (f, e), fr in zip(out, frames) if len(e) > len(fr[46:]) // {"000A": 12, "22C9": 12, "2309": 6, "30C9": 6}[fr[37:41]]))
+    outs = Model().run(reqs)
+    for r, a, b, m in zip(reqs, impl, outs, meta):
+        if a != b:
+            chk.divergence("amerge.run", {"req": r, **m}, a, b)
+    chk.extra["model_ops_compared"] = chk.extra.get("model_ops_compared", 0) + len(reqs)
+
+
 def model_engine(before: str, ops: list[str]) -> str:
     """Run the Lean model of the engine on the same operation outcomes."""
     return Model().run(["eng.run\t" + before + "\t" + ",".join(ops)])[0]
@@ -486,11 +578,12 @@ def run(chk: Check) -> None:
             for o in ops:
                 chk.count("op." + (o if not o.startswith("nested") else "nested:k:" + o.split(":")[2]))
     neighbours(chk, rnd, logs, 600 if thorough else 80)
+    merge_corr(chk, rnd, 3000 if thorough else 200)
     outs = Model().run(reqs)
     for r, a, b, m in zip(reqs, impl, outs, meta):
         if a != b:
             chk.divergence("eng.run", {"req": r, **{k: m[k] for k in ("eavesdrop", "checkpoints", "faults")}}, a, b)
-    chk.extra["model_ops_compared"] = len(reqs)
+    chk.extra["model_ops_compared"] = chk.extra.get("model_ops_compared", 0) + len(reqs)
     chk.sample({"history": "heat_ufc_00 log[0:80] with 2 splices, ' I 1F09 FF0000' inserted, 3 checkpoints, restore fault at the 2nd"})
 
 
